@@ -186,4 +186,43 @@ example : (match runWorkflows false "h" {} [["a", "b"], ["a", "c"]] with
       | .error _ => ([], []))
     | .error _ => ([], [])) = (["b"], ["a", "b"]) := by decide
 
+/-! ### durability of the rollback (process death)
+
+`rollback_handle` does not commit.  `enterTask … early` models `_exec_job_main_thread` from the cache miss to the entry
+of the task function; `early = true` is the code's order (`_perform_rollbacks`, then `record_job_start`, which
+commits), `early = false` the order in which the rollback is still pending when the task starts. -/
+
+/-- **At the moment a handle-writing task function is entered nothing is pending**: every state the scheduler
+rolled back for it is invalid for a fresh connection (and for the next process, should this one die). -/
+theorem task_start_rollback_durable (fixed : Bool) (d d' : DB) (f : HRef HT) (h : enterTask fixed true d f = .ok d') :
+    d'.ses = d'.dur := enterTask_early_durable fixed d d' f h
+
+/-- **No invalidated state is replayed, also across process deaths.**  After any history of executions, each of
+which either completes or is killed right after one of its tasks started writing, one more (complete) execution of
+the chain `ts` returns a valid state and the external system reflects exactly `ts`. -/
+theorem crash_no_stale_replay (fixed : Bool) (name : String) (history : List Exec) (ts : List String) :
+    ∃ w w' final ran, runExecs fixed true name {} history = .ok w ∧
+      runWorkflow fixed w name ts = .ok (w', final, ran) ∧ ts <+: w'.ext ∧ (ts = [] ∨ w'.st.isValid final = true) := by
+  obtain ⟨w, hw, hj⟩ := runExecs_spec fixed name history {} (J_init name "1")
+  obtain ⟨w', ran, hrc, _, hp, hv⟩ := runChain_spec name "1" fixed ts w [] [] hj List.nil_prefix (Or.inl rfl)
+  simp only [List.length_nil, node_nil, List.nil_append] at hrc hp hv
+  exact ⟨w, w', _, ran, hw, hrc, hp, hv⟩
+
+/-- With the rollback issued only after `record_job_start` the statement is false: run `[a]`; the edited chain `[b]`
+is killed right after `b` started writing — its rollback is lost —; the reverted chain `[a]` then replays the
+rolled-back state, runs nothing, and the external system holds `b`.  In the code's order the same history re-runs
+`a`. -/
+theorem late_rollback_refuted :
+    (match runExecs true false "h" {} [.ok ["a"], .killed ["b"] 0] with
+      | .ok w => (match runWorkflow true w "h" ["a"] with
+        | .ok (w', _, ran) => (ran, w'.ext)
+        | .error _ => ([], []))
+      | .error _ => ([], [])) = ([], ["b"]) ∧
+    (match runExecs true true "h" {} [.ok ["a"], .killed ["b"] 0] with
+      | .ok w => (match runWorkflow true w "h" ["a"] with
+        | .ok (w', _, ran) => (ran, w'.ext)
+        | .error _ => ([], []))
+      | .error _ => ([], [])) = (["a"], ["a"]) := by
+  constructor <;> decide
+
 end RedunModel.C25
